@@ -189,8 +189,11 @@ Proof. vm_compute. auto 12. Qed.
 
 (* 2b.  Static tie between the table and the CURRENT source (Conc/SourceTie.v; Gen/ConcWriteSets.v is regenerated from
    the source on every run): every write to shared state that the translator finds reachable from an exported entry
-   point of sm2 / sm3 / sm4 / x509 / gmtls (Config, session cache, loaders) is a Wr of (one of) the table row(s) of
-   that entry point under exactly the same mutexes, or a write of the initialiser of a Once that the row calls ... *)
+   point of sm2 / sm3 / sm4 / x509 / gmtls (Config, session cache, loaders, and Conn: Read, Write, Close, CloseWrite,
+   Handshake, ConnectionState ... with what they reach - readRecord, writeRecordLocked, sendAlert, the handshake
+   functions - per Conn field, with c.in / c.out / handshakeMutex / atomics as locks) is a Wr of (one of) the table
+   row(s) of that entry point under exactly the same mutexes, or a write of the initialiser of a Once that the row
+   calls and that the table states to write this location ... *)
 Theorem table_covers_source_writes :
   forall e ws w, In (e, ws) gen_write_sets -> In w ws -> covered (rows_of_entry e) w = true.
 Proof. exact covers_spec. Qed.
@@ -200,6 +203,13 @@ Print Assumptions table_covers_source_writes.
 Theorem table_writes_found_in_source : found_in_src = true.
 Proof. exact found_in_src_true. Qed.
 Print Assumptions table_writes_found_in_source.
+
+(* ... and whatever the translator could not attribute (calls through function values, interface calls without a
+   summary) or was told to skip is on the two reviewed lists of Conc/SourceTie.v - nothing is dropped silently *)
+Theorem source_unattributed_bounded :
+  (forall x, In x gen_unattributed -> In x allowed_unattributed) /\ (forall x, In x gen_excluded -> In x allowed_excluded).
+Proof. exact unattributed_spec. Qed.
+Print Assumptions source_unattributed_bounded.
 
 (* non-vacuity: the generated file is not empty, and the coverage test refuses writes the table does not have - a new
    lazily initialised field of Sm4Cipher, memoisation into the shared CertPool from Verify, writing the elements of
@@ -213,6 +223,29 @@ Example source_tie_examples :
   /\ covered [config_set_ticket_keys] ex_w_keys_locked = true
   /\ covered [cert_verify; cert_verify_sysroots] ex_w_sysroots = true.
 Proof. vm_compute. auto 10. Qed.
+
+(* the same for one Conn: the five entry points are in the generated file with their rows; Close may write
+   closeNotifySent under c.out's mutex only (not bare, not under c.in); Read may touch c.out's state only with c.in AND
+   c.out held; Write may not touch the input side; vers is written inside the handshake only; handshakeStatus and
+   activeCall are written by atomic operations only; and the lists of unattributed / skipped callees are not empty
+   (so the bound above says something) *)
+Example source_tie_conn_examples :
+  forallb ex_has_entry ex_conn_entries = true /\ length ex_conn_entries = 5%nat
+  /\ rows_of_entry ex_entry_close = [conn_close] /\ rows_of_entry ex_entry_read = [conn_read]
+  /\ rows_of_entry ex_entry_write = [conn_write]
+  /\ covered [conn_close] ex_w_close_notify_locked = true
+  /\ covered [conn_close] ex_w_close_notify_unlocked = false
+  /\ covered [conn_close] ex_w_close_notify_wrong_lock = false
+  /\ covered [conn_read] ex_w_read_out_under_in = false
+  /\ covered [conn_read] ex_w_read_out_under_both = true
+  /\ covered [conn_write] ex_w_write_in_state = false
+  /\ covered [conn_read] ex_w_vers_outside_handshake = false
+  /\ covered [conn_read] ex_w_vers_in_handshake = true
+  /\ covered [conn_handshake] ex_w_status_plain = false
+  /\ covered [conn_write] ex_w_active_plain = false
+  /\ covered [conn_write] ex_w_active_atomic = true
+  /\ (10 <=? length gen_unattributed) = true /\ length gen_excluded = 1%nat.
+Proof. vm_compute. auto 20. Qed.
 
 (* first use of a Config (serverInit, step by step as in gmtls/common.go since 43260b6) against one
    SetSessionTicketKeys: the program is race-free, and EVERY complete interleaving - a complete schedule of the two
